@@ -9,7 +9,7 @@ from ..build import Builder
 PID = "C19"
 LEVEL = "exploration"
 RULE = ("Enumerated: nser n in 1..N (N=6 quick, 12 thorough) x unit cells {R, C, L, Vcvs (4 ports), Mos, Bipolar, external modules with "
-        "2/3/4 scalar ports, external modules whose ports are named like the generators' own objects (i, units, units_k, inner; also as the name of a bundle-valued port), a module with a bus port, a module with a bundle port, a module with scalar ports declared in g,s,d,b order} "
+        "2/3/4 scalar ports, external modules whose ports are named like the generators' own objects (i, units, units_k, inner; also as the name of a bundle-valued port) or like attributes of an Instance (_sub, name, of), a module with a bus port, a module with a bundle port, a module with scalar ports declared in g,s,d,b order} "
         "x every ordered pair of distinct scalar unit ports as the series pair x given by name / by Signal / mixed; MosStack(n) with "
         "default and given units; Wrapper(m) for every unit, and a second Wrapper(m) after the first wrapper was edited / exported or m itself gained a port; module units also elaborated before being handed to Series / Wrapper. Oracle: the documented chain written as a design spec (n unit instances, "
         "unit k's second series port and unit k+1's first on a private net, ends on the module's series ports, all other ports - bus and "
@@ -38,7 +38,7 @@ def unit_spec(u):
     if u.startswith("adv_"):
         # unit ports named like the things the generators create themselves (the inter-unit net, the array, its elements, the
         # wrapper's instance)
-        extra = {"adv_i": ["i"], "adv_units": ["units"], "adv_elems": ["units_1", "units_0"], "adv_inner": ["inner"],
+        extra = {"adv_special": ["_sub", "name", "of"], "adv_i": ["i"], "adv_units": ["units"], "adv_elems": ["units_1", "units_0"], "adv_inner": ["inner"],
                  "adv_all": ["i", "units", "units_0", "inner"]}[u]
         names = ["a", "b"] + extra
         return [ext([[nm, 1, "inout"] for nm in names])], [], [], ["cell", 0], names
@@ -72,7 +72,7 @@ def unit_spec(u):
 
 
 UNITS = ["R", "C", "L", "Vcvs", "Mos", "Bipolar", "ext2", "ext3", "ext4", "mod_bus", "mod_bundle", "mod_gsdb",
-         "adv_i", "adv_units", "adv_elems", "adv_inner", "adv_all", "mod_bundle_i", "mod_bundle_units", "mod_bundle_inner", "mod_rolebundle"]
+         "adv_i", "adv_units", "adv_elems", "adv_inner", "adv_all", "adv_special", "mod_bundle_i", "mod_bundle_units", "mod_bundle_inner", "mod_rolebundle"]
 TAG = 7
 
 
